@@ -65,6 +65,28 @@ pub fn check_fragment(node: &Node, ctx: Ctx, rep: &mut Report) -> Result<bool, F
             return Ok(false);
         }
     };
+    check_typed(node, ctx, t, rep)
+}
+
+/// The value the PSBT finalizer works on: decode(encode(M)) with the key hashes substituted back.
+/// Returns its AST and the type the library carries for it.
+fn derived<C: miniscript::ScriptContext>(node: &Node) -> Option<(Node, T)>
+where
+    C::Key: std::str::FromStr + miniscript::FromStrKey + miniscript::ToPublicKey,
+{
+    use miniscript::ToPublicKey;
+    let ms = Miniscript::<C::Key, C>::from_str_with_validation_params(&ast::print(node, true), &C::CONSENSUS).ok()?;
+    let dec = Miniscript::<C::Key, C>::decode_consensus(&ms.encode()).ok()?;
+    let mut map = std::collections::BTreeMap::new();
+    for k in ms.iter_pk() {
+        map.insert(k.to_pubkeyhash(C::sig_type()), k);
+    }
+    let sub = dec.substitute_raw_pkh(&map);
+    Some((ast::from_lib(&sub), spec::from_lib(&sub.ty)))
+}
+
+pub fn check_typed(node: &Node, ctx: Ctx, t: T, rep: &mut Report) -> Result<bool, Failure> {
+    let text = ast::print(node, true);
     let unit: Unit = oracle::unit_of(node, ctx).map_err(|e| Failure { sig: "mirror-encode".into(), msg: e })?;
     // all keys can sign: the table of valid signatures covers every key of the fragment
     let mut world = World { keys: BTreeSet::new(), preimages: keys::u().preimages.iter().copied().collect(), lock_time: 0, sequence: 0, tx_version: 2 };
@@ -330,7 +352,7 @@ fn hexes(v: &[Vec<u8>]) -> Vec<String> { v.iter().map(|x| keys::hex(x)).collect(
 impl Check for C06 {
     fn id(&self) -> &'static str { "C06" }
     fn rule(&self) -> String {
-        "case = well-typed fragment of any base type (B,V,K,W) with <= 6 nodes in a random context (lane frag), or such a fragment after 1-2 random local edits -- re-wrap, un-wrap, other combinator, swapped children -- kept whenever the LIBRARY still types it (lane loose); the independently encoded script is run by the reference interpreter on ALL input stacks found by lazy enumeration over the type alphabet (empty, 1, 2, 0x00, valid signature per key, a well-formed invalid signature, every key, right preimages, 32 zero bytes, 33-byte junk), once with all time locks satisfied and once with all unsatisfied; the library's stored type (z,o,n,u,d,f,s,e and base shape) is checked against every non-aborting run; every run is repeated on top of two extra elements. Non-trivial = >= 2 nodes, at least one satisfaction and (if the type allows) one dissatisfaction; distinct by (context, text).".into()
+        "case = well-typed fragment of any base type (B,V,K,W) with <= 6 nodes in a random context (lane frag), or such a fragment after 1-2 random local edits -- re-wrap, un-wrap, other combinator, swapped children -- kept whenever the LIBRARY still types it (lane loose), or the value decode(encode(M)).substitute_raw_pkh(keys) with the type that value carries (lane derived); the independently encoded script is run by the reference interpreter on ALL input stacks found by lazy enumeration over the type alphabet (empty, 1, 2, 0x00, valid signature per key, a well-formed invalid signature, every key, right preimages, 32 zero bytes, 33-byte junk), once with all time locks satisfied and once with all unsatisfied; the library's stored type (z,o,n,u,d,f,s,e and base shape) is checked against every non-aborting run; every run is repeated on top of two extra elements. Non-trivial = >= 2 nodes, at least one satisfaction and (if the type allows) one dissatisfaction; distinct by (context, text).".into()
     }
     fn assumptions(&self) -> Vec<String> {
         vec![
@@ -341,8 +363,8 @@ impl Check for C06 {
     }
     fn lanes(&self, tier: Tier) -> Vec<(&'static str, usize, usize)> {
         match tier {
-            Tier::Quick => vec![("frag", 12_000, 200), ("loose", 12_000, 240)],
-            Tier::Thorough => vec![("frag", 400_000, 300), ("loose", 400_000, 340)],
+            Tier::Quick => vec![("frag", 12_000, 200), ("loose", 12_000, 240), ("derived", 6_000, 200)],
+            Tier::Thorough => vec![("frag", 400_000, 300), ("loose", 400_000, 340), ("derived", 120_000, 300)],
         }
     }
     fn run_case(&self, lane: &str, src: &mut Src, rep: &mut Report) -> Result<(), Failure> {
@@ -353,9 +375,35 @@ impl Check for C06 {
         cfg.allow_uncompressed = true;
         cfg.max_multi_n = 3;
         cfg.max_thresh_n = 3;
-        let want = *src.pick(&[gen::W_B, gen::W_B, gen::W_B, gen::W_V, gen::W_K, gen::W_W]);
+        let want = if lane == "derived" { gen::W_B } else { *src.pick(&[gen::W_B, gen::W_B, gen::W_B, gen::W_V, gen::W_K, gen::W_W]) };
         let mut st = gen::State::new();
+        if lane == "derived" {
+            cfg.or_boost = if src.bool() { 4 } else { 1 };
+        }
         let mut node = gen::gen(src, &cfg, &mut st, want, size);
+        if lane == "derived" {
+            // the library value obtained by decoding the script and substituting the key hashes
+            // back (what the finalizer satisfies): its stored type against its own execution
+            let got = match ctx {
+                Ctx::Bare => derived::<BareCtx>(&node),
+                Ctx::Legacy => derived::<Legacy>(&node),
+                Ctx::Segwitv0 => derived::<Segwitv0>(&node),
+                Ctx::Tap => derived::<Tap>(&node),
+            };
+            let (n2, t2) = match got {
+                Some(x) => x,
+                None => {
+                    rep.class("derived:not-decodable");
+                    return Ok(());
+                }
+            };
+            rep.class(if n2 == node { "derived:same-ast" } else { "derived:other-ast" });
+            rep.desc = format!("{:?} decode+substitute_raw_pkh of {} = {}", ctx, ast::print(&node, true), ast::print(&n2, true));
+            if check_typed(&n2, ctx, t2, rep)? {
+                rep.nontrivial_by(&(ctx as u8, &rep.desc.clone()));
+            }
+            return Ok(());
+        }
         if lane == "loose" {
             // whatever the LIBRARY types (not what the specification tables type): local edits of
             // a typed tree; the library's claims about the result are held against execution
